@@ -9,7 +9,8 @@ nobody interleaving: `opCreate t s = run s ([.create t] ++ replicate (MAX + 6) (
 is the same without the final `.ack`, so that the answer `thr t = .done r` is still visible.  Likewise `opDrop`, `opSend`,
 `opPoll`.  A *sequential history* is a list of `Op`s executed by `exec` (all on thread 0) from `init mx n f d`; it is
 `Legal` when `create` is only called with a free id left (`live.length < MAX` — the source panics otherwise) and `drop id`
-only for live `id`.  Every state reached by a sequential history is a reachable state of the model (`reachable_exec`).
+/ `cancel id` only for live `id`.  `Op.cancel id` is `cancel_stream(id)` (`keep id := false`, immediate): a listener may be
+cancelled at any time before it is dropped, and may still be polled afterwards.  Every state reached by a sequential history is a reachable state of the model (`reachable_exec`).
 
 Scope: every `MAX`, every pool size `N`, both fan-out flavours, every legal history of any length.
 `c10_fresh_queue` / `c10_lifetime` need `drains = true` (the repaired source); with `drains = false` (the pinned source)
@@ -20,7 +21,8 @@ namespace Mutiny.Multi
 
 /-- **C10 (bookkeeping).**  After every legal sequential history the manager is quiescent and well-formed (`WF`: all
     threads idle, lock free, `live`/`vacant` duplicate-free and partitioning `0..MAX-1`, `count = live.length`,
-    `used` = the live ids ascending then sentinels, `keep` set for live ids); `count = live.length ≤ MAX`;
+    `used` = the live ids ascending then sentinels; nothing is claimed about `keep` of a live id: it may have been
+    cancelled); `count = live.length ≤ MAX`;
     ids are never exhausted by churn (`create` with `live.length < MAX` finds `vacant ≠ []`, is never stuck at `cVacant`,
     answers the head `j` of `vacant`, which was not live, and `live' = live ++ [j]`); `drop` of a live id completes and
     makes the id vacant again. -/
@@ -90,6 +92,27 @@ theorem c10_fresh_queue (mx n : Nat) (f : Flavor) (h : List Op) (hl : LegalH (in
   simp only [he, specCreate]
   exact hf j' (by simp [hv])
 
+/-- **C10 (a cancelled listener is drained like any other).**  `drains = true`: `drop id` empties the queue of `id`
+    whatever `keep id` is — in particular for a listener that was cancelled (`keep id = false`) with events still queued
+    — gives the payload references of the dropped copies back, and makes the id vacant; so the next owner of the id
+    starts with an empty queue (`c10_fresh_queue`, which holds for histories with `cancel`). -/
+theorem c10_cancelled_drop_drains (s : St) (t id : Nat) (hw : WF s) (hd : s.drains = true) (hid : id ∈ s.live) :
+    let sc := apply s (.cancel id)
+    sc.keep id = false ∧ sc.queues id = s.queues id ∧ WF sc ∧
+      (opDrop t id sc).queues id = [] ∧ id ∈ (opDrop t id sc).vacant ∧ id ∉ (opDrop t id sc).live ∧
+      (∀ e, (opDrop t id sc).refs e = s.refs e - (s.queues id).count e) ∧
+      (opDrop t id s).queues id = [] := by
+  intro sc
+  have hwc : WF sc := wf_cancel hw
+  have hidc : id ∈ sc.live := hid
+  have hdc : sc.drains = true := hd
+  obtain ⟨_, he⟩ := opDrop_spec t hwc hidc
+  obtain ⟨_, he'⟩ := opDrop_spec t hw hid
+  refine ⟨by simp [sc, apply], rfl, hwc, by simp [he, specDrop, hdc], by simp [he, specDrop], ?_,
+    fun e => by simp [he, specDrop, hdc]; rfl, by simp [he', specDrop, hd]⟩
+  simp only [he, specDrop]
+  exact fun hm => ((hwc.liveND.mem_erase_iff).1 hm).1 rfl
+
 /-- `create` does not touch any queue; `drop id` touches only the queue of `id` -/
 theorem c10_queues_frame (s : St) (t : Nat) (hw : WF s) :
     (s.live.length < s.MAX → (opCreate t s).queues = s.queues) ∧
@@ -103,7 +126,8 @@ theorem c10_queues_frame (s : St) (t : Nat) (hw : WF s) :
     split <;> simp [hj]
 
 /-- **C10 (lifetime).**  `drains = true`.  Let `id` be the id answered by a `create` executed after the history `h₁`,
-    `k` its incarnation number, and `h₂` any continuation that does not drop `id`.  Then: the new listener starts with an
+    `k` its incarnation number, and `h₂` any continuation that does not drop `id` (it may `cancel` it, and poll it
+    afterwards).  Then: the new listener starts with an
     empty queue and nothing was ever delivered to incarnation `k` (or a later one) before; throughout `h₂` the id stays
     live with the same incarnation; and the events delivered to `(id, k)` followed by those still queued for `id` are
     exactly the events of the accepted `send` operations of `h₂`, in order, each once — so every `(id, k, ev) ∈ delivered`
@@ -160,17 +184,18 @@ theorem c10_lifetime (mx n : Nat) (f : Flavor) (h₁ h₂ : List Op)
 /-! ## non-vacuity -/
 
 /-- a legal history with churn: ids are reused in FIFO order (`MAX = 2`) -/
-def churnHist : List Op := [.create, .create, .drop 0, .create, .send 7, .poll 0, .drop 1, .create]
+def churnHist : List Op :=
+  [.create, .create, .cancel 0, .drop 0, .create, .send 7, .cancel 1, .poll 0, .poll 1, .drop 1, .create]
 
 example :
     LegalH (init 2 8 .arc true) churnHist ∧ (exec (init 2 8 .arc true) churnHist).live = [0, 1] ∧
       (exec (init 2 8 .arc true) churnHist).vacant = [] ∧ (exec (init 2 8 .arc true) churnHist).used = [0, 1] ∧
-      (exec (init 2 8 .arc true) churnHist).delivered = [(0, 2, 7)] := by
+      (exec (init 2 8 .arc true) churnHist).delivered = [(0, 2, 7), (1, 1, 7)] := by
   decide
 
 /-- `c10_lifetime` is not vacuous: the second incarnation of id 0 receives exactly the events sent after its creation -/
 def lifeH₁ : List Op := [.create, .send 1, .drop 0]
-def lifeH₂ : List Op := [.send 2, .send 3, .poll 0]
+def lifeH₂ : List Op := [.send 2, .cancel 0, .send 3, .poll 0]
 
 example :
     let h₁ := lifeH₁
@@ -195,6 +220,20 @@ theorem c10_stale_counterexample :
       sendsIn s [Op.poll 0] = [] := by
   decide
 
+/-- the seeded bug "skip the drain when the listener was told to end" is excluded by `c10_cancelled_drop_drains`; the
+    history that exposes it: the listener is cancelled with two events queued, dropped, and its id handed out again -/
+def cancelHist : List Op := [.create, .send 1, .send 2, .cancel 0, .drop 0, .create]
+
+example :
+    LegalH (init 1 8 .ogreArc true) cancelHist ∧
+      (exec (init 1 8 .ogreArc true) (cancelHist.take 4)).keep 0 = false ∧
+      (exec (init 1 8 .ogreArc true) (cancelHist.take 4)).queues 0 = [1, 2] ∧
+      (exec (init 1 8 .ogreArc true) (cancelHist.take 5)).queues 0 = [] ∧
+      (exec (init 1 8 .ogreArc true) (cancelHist.take 5)).refs 1 = 0 ∧
+      (callPoll 0 0 (exec (init 1 8 .ogreArc true) cancelHist)).thr 0 = .done (.item none) ∧
+      (exec (init 1 8 .ogreArc true) cancelHist).keep 0 = true := by
+  decide
+
 /-- the same history with the drain: the recycled listener sees nothing -/
 theorem c10_stale_fixed :
     let s := exec (init 1 8 .arc true) staleHist
@@ -207,6 +246,7 @@ end Mutiny.Multi
 #print axioms Mutiny.Multi.c10_create_of_wf
 #print axioms Mutiny.Multi.c10_drop_of_wf
 #print axioms Mutiny.Multi.c10_fresh_queue
+#print axioms Mutiny.Multi.c10_cancelled_drop_drains
 #print axioms Mutiny.Multi.c10_queues_frame
 #print axioms Mutiny.Multi.c10_lifetime
 #print axioms Mutiny.Multi.c10_stale_counterexample
